@@ -126,6 +126,9 @@ def parse_output(text, harnesses):
         r['failed_checks'] = fc
         if r['status'] == 'failed' and not fc and 'unwinding assertion' in blk:
             r['failed_checks'] = [{'check': 'unwinding assertion', 'file': '', 'line': 0, 'in': ''}]
+        if r['status'] == 'failed' and not r['failed_checks']:
+            # CBMC died (killed, crashed, resource limit) without naming a failed check: undecided, never a violation
+            r['status'] = 'cbmc_error'
     return res
 
 
